@@ -46,18 +46,61 @@ T = [
  ("c19-2", "C19", "write_children prints the rank among existing children instead of the edge label", "a node with a vacant lower label and an occupied higher one", ["C19"], ""),
 ]
 
+T2 = [
+ ("r2-c01-1", "C01", "pruning filter short-cuts predicates with an all-zero matrix using bias > 0 instead of >= 0", "a head grafted below a region where two logits are the same affine function (predicate 0 <= 0), not at the root", ["C01", "C03"], ""),
+ ("r2-c01-2", "C01", "adjacent identical activation layers are de-duplicated (\"clamping activations are idempotent\")", "HardSigmoid(i) listed twice in a row", ["C01"], "missed at first: no network listed the same activation twice; families with repeated activations were added"),
+ ("r2-c02-1", "C02", "update_decision drops all-zero rows of the grafted predicate", "terminal of f whose image is parallel to and exactly on a hyperplane of g (also shifts the bits of two-row predicates)", ["C02"], ""),
+ ("r2-c02-2", "C02", "AffFunc::compose returns self when the inner map has unit diagonal and zero bias", "a shear terminal (unit diagonal, off-diagonal entry) in f", ["C02", "C16"], "missed at first by C02 and C16: no shear in either alphabet; shear terminals (C02) and structured operands (C16: identity, shears, permutations, dense) were added"),
+ ("r2-c03-1", "C03", "is_edge_feasible caches the parent path by arena index", "partial operand with a single-child decision, a forwarding that frees an index and its re-use below the next terminal", ["C03", "C07"], "missed by C03 at first (C07 caught it): the operand alphabet had no single-child decision above a full decision; added"),
+ ("r2-c03-2", "C03", "skipped-children counter hoisted to the per-terminal scope", "partial operand with a single-child decision visited after exactly one pruned edge below the same terminal", ["C03", "C07"], ""),
+ ("r2-c04-1", "C04", "composition skips terminals whose cached state is Infeasible", "kept infeasible last child + elimination before a composition that changes the output dimension", ["C04"], ""),
+ ("r2-c04-2", "C04", "kept last child loses its descendants (remove_all_descendants before continue)", "infeasible only child that is itself a decision", ["C04", "C03"], ""),
+ ("r2-c05-1", "C05", "nodes grafted below an identity terminal copy the operand's cached state", "operand with cached witnesses composed onto an identity terminal below excluding decisions", ["C05", "C06"], ""),
+ ("r2-c05-2", "C05", "remove_axes keeps projected witnesses at nodes whose own matrix is zero on the removed axes", "ancestor predicate that uses the removed axis", ["C05"], ""),
+ ("r2-c06-1", "C06", "new phase: a half-space parallel to the parent's edge takes over the parent's state, with the bound comparison flipped", "two consecutive decisions with identical normals, the tighter branch empty because of an older ancestor (hard tanh after ReLU)", ["C06"], ""),
+ ("r2-c06-2", "C06", "witness inheritance accepts a relative tolerance of 1e-8", "offsets of about 1000 and a region empty by a gap between 1e-8 and 1e-5", ["C06"], "missed at first: nothing far from the origin in the alphabet; pairs of nearly coincident parallel facets at offsets 128 / 1024 with gaps 2^-17..2^-10 were added"),
+ ("r2-c07-1", "C07", "is_edge_feasible decides from the parent's cached witnesses alone", "left operand that went through infeasible_elimination before the arithmetic", ["C07", "C03"], ""),
+ ("r2-c07-2", "C07", "in-place fast path of the AffFunc operators pairs entries in memory order", "one operand matrix column-major, at least 2x2", ["C07", "C16"], "missed at first: every matrix was built row-major; a column-major build of every operand was added as a fourth storage layout (C02, C07, C08, C16, C19; C10 re-runs systems with column-major matrices)"),
+ ("r2-c08-1", "C08", "PartialEq of affine functions compares as_slice() (None == None for column-major)", "two different column-major sibling terminals of at least 2x2", ["C08"], "missed at first: see r2-c07-2; 2x2 terminals and the column-major layout were added to C08"),
+ ("r2-c08-2", "C08", "reduce compares the whole node content, cached state included", "infeasible_elimination before reduce leaves different witnesses on equal siblings", ["C08"], "missed at first: reduce was only applied to fresh trees; every fifth tree (and every tower) is now eliminated first"),
+ ("r2-c09-1", "C09", "path_to_node refuses parents whose index is not smaller than the child's", "re-used arena index below a higher-indexed node", ["C09", "C13"], ""),
+ ("r2-c09-2", "C09", "DfsPre::skip_subtree no longer clears last_push", "skip_subtree twice for the same inner node", ["C09", "C13"], ""),
+ ("r2-c10-1", "C10", "as_linprog reads the matrix in memory order", "polytope matrix stored column-major, at least 2x2", ["C10"], "missed at first: see r2-c07-2"),
+ ("r2-c10-2", "C10", "early Unbounded when A c >= 0 (should be > 0 / needs feasibility)", "empty polytope whose infeasible core is orthogonal to the objective", ["C10"], ""),
+ ("r2-c11-1", "C11", "keep-last-child test moved to scheduling time", "Error or Unbounded fault at the LP call of an inner decision on an infeasible path with two children", ["C11"], ""),
+ ("r2-c11-2", "C11", "repaired witness: the solver's original point is cached", "Perturbed fault that mirror_points can repair", ["C11", "C05"], ""),
+ ("r2-c12-1", "C12", "remove_all_descendants sweeps the arena linearly", "re-used index so that a descendant has a smaller index than its ancestor", ["C12"], ""),
+ ("r2-c12-2", "C12", "merge_child_with_parent writes the child's parent link before the root is refused", "merge on the root with exactly one child at the label", ["C12"], ""),
+ ("r2-c13-1", "C13", "Bfs::next returns early for terminals without clearing last_push", "skip_subtree directly after a terminal while an earlier node's children are queued", ["C13"], ""),
+ ("r2-c13-2", "C13", "Tree::depth computed in one pass over the arena in index order", "re-used index: child stored before its parent on the longest path", ["C13"], ""),
+ ("r2-c14-1", "C14", "intersection treats an operand with an all-zero matrix as neutral", "Polytope::empty (0 <= -1) as one operand", ["C14"], ""),
+ ("r2-c14-2", "C14", "apply_post skips the offset when bias.sum() == 0", "non-zero offset whose entries cancel", ["C14"], "missed at first: no such offset in the lattice; added"),
+ ("r2-c15-1", "C15", "remove_tautologies decides by is_sign_negative", "zero row with bias -0.0", ["C15"], "missed at first: no -0.0 in the grid; added"),
+ ("r2-c15-2", "C15", "redundancy tolerance loosened from f64::EPSILON to 1e-6", "tight row shadowed by a row 5e-7 looser at a lower index", ["C15"], "missed at first: no nearly coincident rows in the grid; rows with a gap of 2^-21 were added"),
+ ("r2-c16-1", "C16", "slice derives the kept axes from 'fixed value is zero'", "reference value exactly 0.0 or -0.0", ["C16"], "missed at first: fixed values of the grid were never zero; added"),
+ ("r2-c16-2", "C16", "moved-left element-wise operators mix memory order and logical order", "moved left operand column-major, at least 2x2", ["C16", "C07"], "missed at first: see r2-c07-2"),
+ ("r2-c17-1", "C17", "from_poly skips rows without coefficients", "all-zero row with negative bias that is not the first row", ["C17"], ""),
+ ("r2-c17-2", "C17", "inf_norm turns a single bound into a symmetric interval", "only minimum or only maximum given", ["C17"], ""),
+ ("r2-c18-1", "C18", "extract_range updates current_shape only for linear layers", "argmax as last shape-changing operator of the extracted range", ["C18"], ""),
+ ("r2-c18-2", "C18", "read_layers takes the width from the last pushed layer", "two activation markers after the same linear layer", ["C18"], "missed at first: files had at most one marker per linear layer; files with two consecutive markers were added"),
+ ("r2-c19-1", "C19", "Dot edge loop stops at the first empty child slot", "decision without a child on label 0 but with one on label 1", ["C19"], ""),
+ ("r2-c19-2", "C19", "write_predicate prints only row 0", "K >= 3 tree with a two-row predicate through Display", ["C19"], "missed at first: only binary trees were rendered; K=4 trees were added to the Display check"),
+]
+
 extra = {}
 ep = os.path.join(ROOT, "tools", "seed_table_extra.json")
 if os.path.exists(ep):
     extra = json.load(open(ep))
 
 rows = []
-for sid, prop, descr, needs, caught, note in T:
+for sid, prop, descr, needs, caught, note in T + T2:
     if sid in extra:
         e = extra[sid]
         descr, needs, caught, note = e["descr"], e["needs"], e["caught"], e.get("note", "")
-    nn, k = sid[1:3], sid[4]
-    src = "/tmp/seed_c%s" % nn
+    r2 = sid.startswith("r2-")
+    base = sid[3:] if r2 else sid
+    nn, k = base[1:3], base[4]
+    src = ("/tmp/seed2_c%s" if r2 else "/tmp/seed_c%s") % nn
     dst = os.path.join(ROOT, "seeded", sid)
     if not descr:
         continue
@@ -85,10 +128,10 @@ for sid, prop, descr, needs, caught, note in T:
         "property": prop,
         "change": descr,
         "needs_to_manifest": needs,
-        "origin": "fresh sub-agent given only the property text and a scratch worktree (/tmp/wt_c%s); nothing from /verif" % nn,
+        "origin": ("round 2: " if r2 else "round 1: ") + "fresh sub-agent given only the property text" + (" (plus one-line descriptions of the round-1 changes to avoid duplicates)" if r2 else "") + " and a scratch worktree; nothing from /verif",
         "confirmation": conf,
         "what_was_run": [
-            "tools/confirm_seed.sh %s %s  (scratch worktree: git apply patch; cargo test --offline --no-fail-fast -> whole suite passes; demo as tests/seed_demo.rs fails with the patch, passes after git checkout)" % (nn, k),
+            "tools/confirm_seed.sh %s %s" % (nn, k) + (" 2" if r2 else "") + "  (scratch worktree: git apply patch; cargo test --offline --no-fail-fast -> whole suite passes; demo as tests/seed_demo.rs fails with the patch, passes after git checkout)",
             "tools/try_seed.sh seeded/%s/patch.diff quick %s  (git -C /repo apply; ./check <ID> quick; git -C /repo checkout -- .)" % (sid, " ".join(caught)),
         ],
         "caught_by_quick": caught,
